@@ -304,6 +304,8 @@ def step(st, op, seed, pid=PID):
         if d is not None:
             clause = {"mutate": "private-copy", "toggle": "toggle", "deq": "fifo", "peek": "fifo", "setmax": "setmax",
                       "len": "len"}.get(kind, "enqueue-stored")
+            if d == "order":
+                clause = "fifo-order"
             v("%s:%s:%s" % (clause, kind, d), "queue holds %r, expected %r" % ([tuple(x) for x in got], [tuple(x) for x in want]))
         keys = [key(x) for x in got]
         if len(set(keys)) != len(keys):
